@@ -152,7 +152,8 @@ def generate(rseed, tier, idx):
         if rel.endswith(".css") and not rel.endswith("_cm.css") and tree[rel].get("ast") and g.random() < 0.15:
             out = rel[:-4] + "_cm.css"
             if out not in tree:
-                tree[out] = {"k": "css", "text": g.choice((".stale{color:#000", "", ".old{color:#123456}\n")), "stale": True}
+                tree[out] = {"k": "css", "text": g.choice((".stale{color:#000", "", ".old{color:#123456}\n",
+                                                           "/* stale output of an earlier run */\n" + ".leftover{color:#111111;margin:0}\n" * g.choice((3, 40)))), "stale": True}
 
     steps = []
     if enum:
@@ -285,6 +286,12 @@ def _solo(cache, snap, rel, settings, fault, env):
              "extra": sorted(k for k in after if k not in (name, _out_of(name)))}
     finally:
         base.rm_tree(root)
+    # "running the tool on that file alone": when the file is healthy the reference is the run in a CLEAN directory,
+    # whatever stale or torn <name>_cm.css an earlier run left beside it (a leftover must never show through)
+    if sib is not None and sib[0] == "f" and r["errors"] == [] and r["out"] is not None and not fault:
+        clean = dict(snap)
+        del clean[out_rel]
+        r = dict(r, out=_solo(cache, clean, rel, settings, fault, env)["out"], had_stale=True)
     cache[key] = r
     return r
 
